@@ -109,6 +109,9 @@ type PropM struct {
 	FinalAt   int64
 	DecidedAt int64
 	CfgFamily string
+	// Imported names the stage in which the genesis carried the proposal ("" = created in the history).
+	// An imported proposal has Created = 0; one imported as passed / failed has DecidedAt = 0.
+	Imported string
 }
 
 func (p *PropM) total() *big.Int {
@@ -428,19 +431,180 @@ type Monitor struct {
 	SnapshotDrift               int // votes cast by a validator whose current power differs from the snapshot
 	StrangerPublicOK            int // successful PROPOSAL_FINALIZE / EXPIRE_VOTES transactions
 	EmptySnapshots              int
+	ImportedVotes               int // vote records of genesis proposals carrying an opinion, found as recorded after InitChain
+	ImportedFunds               int // fund records of genesis proposals found as recorded after InitChain
+	FinalDueMet                 int // proposals that left the passed / failed stage in time
 	Notes                       []string
 }
 
-func NewMonitor(p sim.Params, genesis map[string][]byte) (*Monitor, *Violation) {
+// NewMonitor starts the monitor on the state InitChain committed. pre is the "proposals" section of the genesis
+// document (nil for a genesis without proposals): what the old chain recorded. The state must hold exactly these
+// records (the recorded stage, contributions and votes are what every later judgement is based on); the model
+// then starts from the state's records: one PropM per proposal, as if its history so far had been observed.
+func NewMonitor(p sim.Params, genesis map[string][]byte, pre []governance.GovProposal) (*Monitor, *Violation) {
 	v, bad := parseView(genesis)
 	if bad != nil {
 		return nil, bad
 	}
 	m := &Monitor{P: p, Props: map[string]*PropM{}, prev: v}
-	if len(v.props) > 0 || len(v.fundsI) > 0 || len(v.votes) > 0 {
-		return nil, viol("harness", "genesis", "genesis state already holds proposals")
+	want := map[string]bool{}
+	for _, gp := range pre {
+		want[string(gp.Prop.ProposalID)] = true
+	}
+	for _, ids := range []map[string]bool{keysOfProps(v.props), keysOfAmts(v.fundsI), keysOfBig(v.fundsT), keysOfVotes(v.votes)} {
+		for id := range ids {
+			if !want[id] {
+				return nil, viol("harness", "genesis", "genesis state holds records of proposal %s which the genesis document does not carry", id)
+			}
+		}
+	}
+	for _, gp := range pre {
+		id := string(gp.Prop.ProposalID)
+		if m.Props[id] != nil {
+			return nil, viol("harness", "genesis", "genesis document carries proposal %s twice", id)
+		}
+		// --- the import is faithful: store, record, contributions, snapshot and opinions as recorded ---
+		recs := v.props[id]
+		if len(recs) != 1 {
+			return nil, viol("genesis-import", "proposal-record", "h=0: the genesis carries proposal %s in store %s; after InitChain it is recorded in %d stores", id, gp.State, len(recs))
+		}
+		r := recs[0]
+		if r.Store != gp.State.String() {
+			return nil, viol("genesis-import", "proposal-record", "h=0: the genesis carries proposal %s in store %s; after InitChain it is in store %s", id, gp.State, r.Store)
+		}
+		wantRec, _ := json.Marshal(gp.Prop)
+		gotRec, _ := json.Marshal(r.P)
+		if !bytes.Equal(wantRec, gotRec) {
+			return nil, viol("genesis-import", "proposal-record", "h=0: proposal %s: the genesis records %s; after InitChain the state holds %s", id, wantRec, gotRec)
+		}
+		st, okc := classify(r)
+		if !okc {
+			return nil, viol("harness", "genesis", "genesis proposal %s in store %s has status %s / outcome %s: not a stage a dump can hold", id, r.Store, r.P.Status, r.P.Outcome)
+		}
+		pm := &PropM{ID: id, Stage: st, Path: []Stage{st}, Rec: r.P, Created: 0, Contrib: map[string]*big.Int{}, Withdrawn: map[string]*big.Int{}, Imported: importName(st)}
+		wantFunds := map[string]*big.Int{}
+		for _, f := range gp.ProposalFunds {
+			if f.FundingAmount != nil {
+				add(wantFunds, f.Address.String(), f.FundingAmount.BigInt())
+			}
+		}
+		gotFunds := v.fundsI[id]
+		for _, f := range sortedKeys(wantFunds, gotFunds) {
+			w, g := wantFunds[f], gotFunds[f]
+			if w == nil || g == nil || w.Cmp(g) != 0 {
+				return nil, viol("genesis-import", "fund-record", "h=0: proposal %s (%s): the genesis records a contribution of %s by %s; after InitChain the fund record is %s", id, pm.Imported, amtStr(w), f, amtStr(g))
+			}
+			add(pm.Contrib, f, g)
+			m.ImportedFunds++
+		}
+		if t := v.fundsT[id]; (t == nil && len(wantFunds) > 0) || (t != nil && t.Cmp(pm.total()) != 0) {
+			return nil, viol("genesis-import", "fund-record", "h=0: proposal %s (%s): the genesis records contributions of %s in total; after InitChain the total fund record is %s", id, pm.Imported, pm.total(), amtStr(t))
+		}
+		gotVotes := v.votes[id]
+		if len(gotVotes) != len(gp.ProposalVotes) {
+			return nil, viol("genesis-import", "vote-snapshot", "h=0: proposal %s (%s): the genesis records a snapshot of %d validators; after InitChain there are %d vote records", id, pm.Imported, len(gp.ProposalVotes), len(gotVotes))
+		}
+		if rank(st) >= rank(SV) && st != SC && st != SM {
+			pm.VoteStart = 0
+			pm.Snapshot = map[string]int64{}
+			pm.Opinion = map[string]governance.VoteOpinion{}
+		} else if len(gotVotes) > 0 {
+			return nil, viol("harness", "genesis", "genesis proposal %s (%s) carries vote records although it never entered voting", id, pm.Imported)
+		}
+		for _, w := range gp.ProposalVotes {
+			a := w.Validator.String()
+			g, in := gotVotes[a]
+			if !in || g.Power != w.Power {
+				return nil, viol("genesis-import", "vote-snapshot", "h=0: proposal %s (%s): the genesis records validator %s in the snapshot with power %d; after InitChain its vote record has power %d (present %v)", id, pm.Imported, a, w.Power, g.Power, in)
+			}
+			if g.Opinion != w.Opinion {
+				return nil, viol("genesis-import", "vote-opinion", "h=0: proposal %s (%s): the genesis records the vote of validator %s (power %d) as %s; after InitChain the vote record says %s: the proposal can no longer be judged by the votes that were recorded",
+					id, pm.Imported, a, w.Power, w.Opinion, g.Opinion)
+			}
+			pm.Snapshot[a] = g.Power
+			pm.Opinion[a] = g.Opinion
+			if g.Opinion != governance.OPIN_UNKNOWN {
+				m.ImportedVotes++
+			}
+		}
+		if fam, _, _, isCfg := cfgSplit(r.P.GovernanceStateUpdate); isCfg && r.P.Type == governance.ProposalTypeConfigUpdate {
+			pm.CfgFamily = fam
+		}
+		m.Props[id] = pm
+		m.Order = append(m.Order, id)
 	}
 	return m, nil
+}
+
+func importName(s Stage) string {
+	switch s {
+	case SF:
+		return "funding"
+	case SV:
+		return "voting"
+	case SP:
+		return "passed"
+	case SN:
+		return "failed"
+	case SC:
+		return "cancelled"
+	case SX:
+		return "expired"
+	case SM:
+		return "goal-missed"
+	case SZ:
+		return "finalised"
+	case SZF:
+		return "finalise-failed"
+	}
+	return string(s)
+}
+
+func keysOfProps(m map[string][]propRec) map[string]bool {
+	o := map[string]bool{}
+	for k := range m {
+		o[k] = true
+	}
+	return o
+}
+
+func keysOfAmts(m map[string]map[string]*big.Int) map[string]bool {
+	o := map[string]bool{}
+	for k := range m {
+		o[k] = true
+	}
+	return o
+}
+
+func keysOfBig(m map[string]*big.Int) map[string]bool {
+	o := map[string]bool{}
+	for k := range m {
+		o[k] = true
+	}
+	return o
+}
+
+func keysOfVotes(m map[string]map[string]governance.ProposalVote) map[string]bool {
+	o := map[string]bool{}
+	for k := range m {
+		o[k] = true
+	}
+	return o
+}
+
+func sortedKeys(ms ...map[string]*big.Int) []string {
+	set := map[string]bool{}
+	for _, m := range ms {
+		for k := range m {
+			set[k] = true
+		}
+	}
+	out := make([]string, 0, len(set))
+	for k := range set {
+		out = append(out, k)
+	}
+	sort.Strings(out)
+	return out
 }
 
 func amtStr(a *big.Int) string {
